@@ -1,55 +1,120 @@
 (* C14 — a table prefix renames tables and nothing else (schema-algebra half: with_prefix, normalize,
    diff, apply, plan_next; the SQL half lives in the sql layer).
    Pinned statements only: each theorem is closed by [exact] of a lemma proved in Proofs/. *)
-From VV.M1 Require Import Oracles PrefixStrP PrefixP PrefixDiffP PrefixApplyP.
+From VV.M1 Require Import Oracles PrefixHyp PrefixStrP PrefixP PrefixDiffP PrefixApplyP.
 
-(* ---------- with_prefix against the literally renamed project ---------- *)
-Theorem C14_with_prefix_is_literal : forall p a, p <> "" -> no_inline_fk a = true ->
+(* ---------- with_prefix against the literally renamed project (after the D10 repair) ---------- *)
+Theorem C14_with_prefix_is_literal : forall p a, p <> "" -> inline_fks_parse a = true ->
   action_with_prefix p a = literal_action p a.
 Proof. exact with_prefix_is_literal. Qed.
 Print Assumptions C14_with_prefix_is_literal.
-Check C14_with_prefix_is_literal : forall p a, p <> "" -> no_inline_fk a = true ->
+Check C14_with_prefix_is_literal : forall p a, p <> "" -> inline_fks_parse a = true ->
+  action_with_prefix p a = literal_action p a.
+
+Theorem C14_with_prefix_is_literal_no_inline_fk : forall p a, p <> "" -> no_inline_fk a = true ->
+  action_with_prefix p a = literal_action p a.
+Proof. exact with_prefix_is_literal_no_inline_fk. Qed.
+Print Assumptions C14_with_prefix_is_literal_no_inline_fk.
+Check C14_with_prefix_is_literal_no_inline_fk : forall p a, p <> "" -> no_inline_fk a = true ->
   action_with_prefix p a = literal_action p a.
 
 Theorem C14_plan_with_prefix_is_literal : forall p pl, p <> "" ->
-  forallb no_inline_fk (p_actions pl) = true ->
+  forallb inline_fks_parse (p_actions pl) = true ->
   p_actions (plan_with_prefix p pl) = map (literal_action p) (p_actions pl).
 Proof. exact plan_with_prefix_is_literal. Qed.
 Print Assumptions C14_plan_with_prefix_is_literal.
 Check C14_plan_with_prefix_is_literal : forall p pl, p <> "" ->
-  forallb no_inline_fk (p_actions pl) = true ->
+  forallb inline_fks_parse (p_actions pl) = true ->
   p_actions (plan_with_prefix p pl) = map (literal_action p) (p_actions pl).
 
-(* D10: an inline foreign_key of a CreateTable column is not rewritten; after apply_action the
-   promoted constraint of "app_post" references "user", a table that does not exist *)
-Theorem C14_inline_fk_refuted :
+(* the hypothesis is what normalisation enforces (so it holds for every CreateTable that replays) *)
+Theorem C14_applied_create_parses : forall s t cols ks s',
+  apply_action s (CreateTable t cols ks) = Ok s' -> inline_fks_parse (CreateTable t cols ks) = true.
+Proof. exact applied_create_parses. Qed.
+Print Assumptions C14_applied_create_parses.
+Check C14_applied_create_parses : forall s t cols ks s',
+  apply_action s (CreateTable t cols ks) = Ok s' -> inline_fks_parse (CreateTable t cols ks) = true.
+
+(* D10 repaired: the former witness is now rewritten, the promoted constraint references "app_user" *)
+Theorem C14_inline_fk_fixed :
   let user := mkTable "user" None
                 [mkCol "id" (TSimple Integer) false None None (Some (PKBool true)) None None None] [] in
   let a := CreateTable "post"
              [mkCol "id" (TSimple Integer) false None None (Some (PKBool true)) None None None;
               mkCol "user_id" (TSimple Integer) false None None None None None (Some (FKStr "user.id"))] [] in
   no_inline_fk a = false
-  /\ action_with_prefix "app_" a <> literal_action "app_" a
+  /\ inline_fks_parse a = true
+  /\ action_with_prefix "app_" a = literal_action "app_" a
   /\ fk_targets_of "app_post" (apply_action (literal_schema "app_" [user]) (action_with_prefix "app_" a))
-     = Some ["user"]
-  /\ fk_targets_of "app_post" (apply_action (literal_schema "app_" [user]) (literal_action "app_" a))
-     = Some ["app_user"]
-  /\ has_table "user" (literal_schema "app_" [user]) = false.
-Proof. exact inline_fk_refuted. Qed.
-Print Assumptions C14_inline_fk_refuted.
-Check C14_inline_fk_refuted :
+     = Some ["app_user"].
+Proof. exact inline_fk_fixed. Qed.
+Print Assumptions C14_inline_fk_fixed.
+Check C14_inline_fk_fixed :
   let user := mkTable "user" None
                 [mkCol "id" (TSimple Integer) false None None (Some (PKBool true)) None None None] [] in
   let a := CreateTable "post"
              [mkCol "id" (TSimple Integer) false None None (Some (PKBool true)) None None None;
               mkCol "user_id" (TSimple Integer) false None None None None None (Some (FKStr "user.id"))] [] in
   no_inline_fk a = false
-  /\ action_with_prefix "app_" a <> literal_action "app_" a
+  /\ inline_fks_parse a = true
+  /\ action_with_prefix "app_" a = literal_action "app_" a
   /\ fk_targets_of "app_post" (apply_action (literal_schema "app_" [user]) (action_with_prefix "app_" a))
-     = Some ["user"]
-  /\ fk_targets_of "app_post" (apply_action (literal_schema "app_" [user]) (literal_action "app_" a))
-     = Some ["app_user"]
-  /\ has_table "user" (literal_schema "app_" [user]) = false.
+     = Some ["app_user"].
+
+(* remaining corner 1 (harmless): a malformed inline reference "a.b.c" is prefixed blindly by with_prefix
+   and left alone by the literal renaming; every variant is rejected by normalisation *)
+Theorem C14_malformed_inline_fk_refuted :
+  let user := mkTable "user" None
+                [mkCol "id" (TSimple Integer) false None None (Some (PKBool true)) None None None] [] in
+  let a := CreateTable "post"
+             [mkCol "id" (TSimple Integer) false None None (Some (PKBool true)) None None None;
+              mkCol "user_id" (TSimple Integer) false None None None None None (Some (FKStr "a.b.c"))] [] in
+  inline_fks_parse a = false
+  /\ action_with_prefix "app_" a <> literal_action "app_" a
+  /\ apply_action [user] a = Err TableValidation
+  /\ apply_action (literal_schema "app_" [user]) (literal_action "app_" a) = Err TableValidation
+  /\ apply_action (literal_schema "app_" [user]) (action_with_prefix "app_" a) = Err TableValidation.
+Proof. exact malformed_inline_fk_refuted. Qed.
+Print Assumptions C14_malformed_inline_fk_refuted.
+Check C14_malformed_inline_fk_refuted :
+  let user := mkTable "user" None
+                [mkCol "id" (TSimple Integer) false None None (Some (PKBool true)) None None None] [] in
+  let a := CreateTable "post"
+             [mkCol "id" (TSimple Integer) false None None (Some (PKBool true)) None None None;
+              mkCol "user_id" (TSimple Integer) false None None None None None (Some (FKStr "a.b.c"))] [] in
+  inline_fks_parse a = false
+  /\ action_with_prefix "app_" a <> literal_action "app_" a
+  /\ apply_action [user] a = Err TableValidation
+  /\ apply_action (literal_schema "app_" [user]) (literal_action "app_" a) = Err TableValidation
+  /\ apply_action (literal_schema "app_" [user]) (action_with_prefix "app_" a) = Err TableValidation.
+
+(* remaining corner 2 (not harmless in the model): ".x" has an empty table part and is rejected without a
+   prefix and by the literally renamed project; with_prefix makes it the well-formed "app_.x", the prefixed
+   plan replays and references a table called "app_" *)
+Theorem C14_empty_table_inline_fk_refuted :
+  let user := mkTable "user" None
+                [mkCol "id" (TSimple Integer) false None None (Some (PKBool true)) None None None] [] in
+  let a := CreateTable "post"
+             [mkCol "id" (TSimple Integer) false None None (Some (PKBool true)) None None None;
+              mkCol "user_id" (TSimple Integer) false None None None None None (Some (FKStr ".x"))] [] in
+  inline_fks_parse a = false
+  /\ apply_action [user] a = Err TableValidation
+  /\ apply_action (literal_schema "app_" [user]) (literal_action "app_" a) = Err TableValidation
+  /\ fk_targets_of "app_post" (apply_action (literal_schema "app_" [user]) (action_with_prefix "app_" a))
+     = Some ["app_"].
+Proof. exact empty_table_inline_fk_refuted. Qed.
+Print Assumptions C14_empty_table_inline_fk_refuted.
+Check C14_empty_table_inline_fk_refuted :
+  let user := mkTable "user" None
+                [mkCol "id" (TSimple Integer) false None None (Some (PKBool true)) None None None] [] in
+  let a := CreateTable "post"
+             [mkCol "id" (TSimple Integer) false None None (Some (PKBool true)) None None None;
+              mkCol "user_id" (TSimple Integer) false None None None None None (Some (FKStr ".x"))] [] in
+  inline_fks_parse a = false
+  /\ apply_action [user] a = Err TableValidation
+  /\ apply_action (literal_schema "app_" [user]) (literal_action "app_" a) = Err TableValidation
+  /\ fk_targets_of "app_post" (apply_action (literal_schema "app_" [user]) (action_with_prefix "app_" a))
+     = Some ["app_"].
 
 (* ---------- prefixing is a strictly monotone injection for the bytewise order ---------- *)
 Theorem C14_compare_prefix : forall p a b, String.compare (p +++ a) (p +++ b) = String.compare a b.
@@ -161,13 +226,13 @@ Check C14_apply_all_equivariant : forall p acts s, contains_char "."%char p = fa
     end.
 
 Theorem C14_with_prefix_replay : forall p pl s, p <> "" -> no_dot p ->
-  forallb no_inline_fk (p_actions pl) = true -> side_all p s (p_actions pl) = true ->
+  forallb inline_fks_parse (p_actions pl) = true -> side_all p s (p_actions pl) = true ->
   apply_all (literal_schema p s) (p_actions (plan_with_prefix p pl))
   = lift_apply p (apply_all s (p_actions pl)).
 Proof. exact with_prefix_replay. Qed.
 Print Assumptions C14_with_prefix_replay.
 Check C14_with_prefix_replay : forall p pl s, p <> "" -> contains_char "."%char p = false ->
-  forallb no_inline_fk (p_actions pl) = true -> side_all p s (p_actions pl) = true ->
+  forallb inline_fks_parse (p_actions pl) = true -> side_all p s (p_actions pl) = true ->
   apply_all (literal_schema p s) (p_actions (plan_with_prefix p pl))
   = match apply_all s (p_actions pl) with
     | Ok s' => Ok (literal_schema p s')
@@ -191,9 +256,35 @@ Check C14_plan_next_equivariant : forall p current applied, contains_char "."%ch
     | Err e => Err (literal_plan_error p e)
     end.
 
+Theorem C14_plan_next_with_prefix : forall p current applied, p <> "" -> no_dot p ->
+  forallb (fun pl => forallb inline_fks_parse (p_actions pl)) applied = true ->
+  side_all p [] (flat_map p_actions applied) = true ->
+  plan_next (literal_schema p current) (map (plan_with_prefix p) applied)
+  = match plan_next current applied with
+    | Ok pl => Ok (literal_plan p pl)
+    | Err e => Err (literal_plan_error p e)
+    end.
+Proof. exact plan_next_with_prefix. Qed.
+Print Assumptions C14_plan_next_with_prefix.
+Check C14_plan_next_with_prefix : forall p current applied, p <> "" -> contains_char "."%char p = false ->
+  forallb (fun pl => forallb inline_fks_parse (p_actions pl)) applied = true ->
+  side_all p [] (flat_map p_actions applied) = true ->
+  plan_next (literal_schema p current) (map (plan_with_prefix p) applied)
+  = match plan_next current applied with
+    | Ok pl => Ok (literal_plan p pl)
+    | Err e => Err (literal_plan_error p e)
+    end.
+
 (* ---------- the hypotheses are satisfiable, the statements are not vacuous ---------- *)
 Example C14_prefix_plain : "app_" <> "" /\ no_dot "app_".
 Proof. split; [discriminate | reflexivity]. Qed.
+
+Example C14_inline_fks_parse_satisfiable :
+  inline_fks_parse (CreateTable "post"
+    [mkCol "id" (TSimple Integer) false None None (Some (PKBool true)) None None None;
+     mkCol "user_id" (TSimple Integer) false None None None None None (Some (FKRef "user.id" (Some Cascade) None))]
+    []) = true.
+Proof. reflexivity. Qed.
 
 Example C14_no_inline_fk_satisfiable :
   no_inline_fk (CreateTable "post"
